@@ -478,9 +478,180 @@ def _check_tool(case, st, tmp):
     return out
 
 
+# ------------------------------------------- what the two tools *print* --
+def run_tool_text(tool, argv):
+    import cnfgen.clitools.msg as msg
+    if tool == 'cnfgen':
+        from cnfgen.clitools.cnfgen import cli
+    else:
+        from cnfgen.clitools.pbgen import cli
+    if hasattr(msg, '_prefix'):
+        msg._prefix = ''
+    random.seed(HSEED)
+    buf = io.StringIO()
+    try:
+        with contextlib.redirect_stderr(io.StringIO()), contextlib.redirect_stdout(buf):
+            cli([tool, '-q'] + argv, mode='output')
+        return 'ok', buf.getvalue()
+    except SystemExit as e:
+        return ('ok', buf.getvalue()) if e.code in (0, None) else ('exc', e)
+    except Exception as e:          # noqa: the outcome is compared
+        return 'exc', e
+    finally:
+        if hasattr(msg, '_prefix'):
+            msg._prefix = ''
+
+
+def big_graph_file(kind, k):
+    """k disjoint copies of a small graph, in kthlist format."""
+    lines = []
+    if kind == 'triangles':
+        n = 3 * k
+        for i in range(k):
+            a = 3 * i + 1
+            lines += ['%d : %d %d 0' % (a, a + 1, a + 2), '%d : %d %d 0' % (a + 1, a, a + 2),
+                      '%d : %d %d 0' % (a + 2, a, a + 1)]
+    elif kind == 'edges':
+        n = 2 * k
+        for i in range(k):
+            a = 2 * i + 1
+            lines += ['%d : %d 0' % (a, a + 1), '%d : %d 0' % (a + 1, a)]
+    else:
+        raise KeyError(kind)
+    return '%d\n%s\n' % (n, '\n'.join(lines))
+
+
+def check_text(case, st=None, tmp=None):
+    """Realistic sizes (more rows than any writer buffer): the DIMACS text
+    printed by cnfgen and the OPB text printed by pbgen, read by the strict
+    reference readers, must be the same formula.  The commands are chosen so
+    that the formula falls apart into variable-disjoint components of <= 20
+    variables (components of the union of both constraint hypergraphs); the
+    comparison of the model sets is then exact, component by component."""
+    from ref import c12_readers as rd
+    from ref import c06_dimacs_ref as dref
+    st = st if st is not None else {}
+    out = []
+
+    def bad(sym, what):
+        out.append({'key': 'text:%s:%s' % (case['cmd'], sym), 'what': what, 'case': dict(case)})
+    own = tmp is None
+    if own:
+        tmp = tempfile.mkdtemp(prefix='c08_')
+    try:
+        for name, (kind, k) in sorted((case.get('bigfiles') or {}).items()):
+            with open(os.path.join(tmp, name), 'w') as f:
+                f.write(big_graph_file(kind, k))
+        argv = _tokens(case['argv'], tmp)
+        ka, A = run_tool_text('cnfgen', argv)
+        kb, B = run_tool_text('pbgen', argv)
+    finally:
+        if own:
+            shutil.rmtree(tmp, ignore_errors=True)
+    if ka == 'exc' or kb == 'exc':
+        bad('exception', 'cnfgen: %r, pbgen: %r' % (A if ka == 'exc' else 'ok', B if kb == 'exc' else 'ok'))
+        return out
+    P = dref.parse(A)
+    if not P.ok:
+        bad('cnfgen-text-unreadable', 'strict DIMACS reader: %r' % (P.issues[:3],))
+        return out
+    try:
+        N, M, cons = rd.read_opb(B)
+    except rd.FormatError as e:
+        bad('pbgen-text-unreadable', 'strict OPB reader: %s' % (e,))
+        return out
+    st['rows'] = (len(P.clauses), len(cons))
+    if N != P.n:
+        bad('nvars', 'cnfgen prints %d variables, pbgen %d' % (P.n, N))
+        return out
+    if M != len(cons):
+        bad('pbgen-header-count', 'OPB header announces %d constraints, %d are printed' % (M, len(cons)))
+    # components of the union hypergraph
+    parent = list(range(N + 1))
+
+    def find(x):
+        while parent[x] != x:
+            parent[x] = parent[parent[x]]
+            x = parent[x]
+        return x
+
+    def union(vs):
+        vs = list(vs)
+        for v in vs[1:]:
+            ra, rb = find(vs[0]), find(v)
+            if ra != rb:
+                parent[rb] = ra
+    for c in P.clauses:
+        union(abs(l) for l in c)
+    for terms, rel, deg in cons:
+        union(abs(l) for (_, l) in terms)
+    comp = {}
+    for v in range(1, N + 1):
+        comp.setdefault(find(v), []).append(v)
+    cnf_of, pb_of = {}, {}
+    empty_cnf = empty_pb_false = 0
+    for c in P.clauses:
+        if not c:
+            empty_cnf += 1
+        else:
+            cnf_of.setdefault(find(abs(c[0])), []).append(c)
+    for terms, rel, deg in cons:
+        if not terms:
+            if not ((0 >= deg) if rel == '>=' else (0 == deg)):
+                empty_pb_false += 1
+        else:
+            pb_of.setdefault(find(abs(terms[0][1])), []).append((terms, rel, deg))
+    if bool(empty_cnf) != bool(empty_pb_false):
+        bad('model-set', 'constant-false rows: cnfgen %d, pbgen %d' % (empty_cnf, empty_pb_false))
+    ncomp = 0
+    for root, vs in comp.items():
+        if len(vs) > 20:
+            bad('harness:component-too-large', '%d variables in one component' % len(vs))
+            return out
+        idx = {v: i + 1 for i, v in enumerate(vs)}
+        k = len(vs)
+        loc = lambda l: idx[abs(l)] if l > 0 else -idx[abs(l)]
+        a = tt.cnf_models(k, [[loc(l) for l in c] for c in cnf_of.get(root, [])])
+        b = tt.columns(k)[0]
+        for terms, rel, deg in pb_of.get(root, []):
+            b &= tt.pb_models(k, [(co, loc(l)) for (co, l) in terms], '>=' if rel == '>=' else '==', deg)
+        ncomp += 1
+        st['assignments'] = st.get('assignments', 0) + (1 << k)
+        if a != b:
+            d = a ^ b
+            m = next(tt.models(d))
+            true_vars = [vs[i - 1] for i in tt.true_vars(m, k)]
+            bad('model-set', 'on the component with variables %r..%r the assignment with true '
+                'variables %r satisfies only the %s text' % (vs[0], vs[-1], true_vars,
+                                                            'DIMACS' if (a >> m) & 1 else 'OPB'))
+            break
+    st['components'] = ncomp
+    st['nontrivial'] = True
+    return out
+
+
+def text_cases(tier):
+    cs = []
+
+    def add(cmd, argv, bigfiles=None):
+        cs.append({'lvl': 'text', 'cmd': cmd, 'argv': argv, 'bigfiles': bigfiles or {}})
+    for (p_, n_) in ((1100, 0), (0, 1100), (1024, 1), (1025, 0), (2050, 3)):
+        add('and', ['and', p_, n_])
+    add('kcolor', ['kcolor', 3, 'kthlist', PLACE + '/tri.kthlist'], {'tri.kthlist': ('triangles', 350)})
+    add('kcolor', ['kcolor', 2, 'kthlist', PLACE + '/tri.kthlist'], {'tri.kthlist': ('triangles', 300)})
+    add('matching', ['matching', 'kthlist', PLACE + '/edges.kthlist'], {'edges.kthlist': ('edges', 1100)})
+    add('tseitin', ['tseitin', 'first', 'kthlist', PLACE + '/tri.kthlist'], {'tri.kthlist': ('triangles', 400)})
+    if tier == 'thorough':
+        add('and', ['and', 4097, 4097])
+        add('kcolor', ['kcolor', 4, 'kthlist', PLACE + '/tri.kthlist'], {'tri.kthlist': ('triangles', 1400)})
+    return cs
+
+
 def replay(case):
     if case.get('lvl') == 'tool':
         return check_tool(case)
+    if case.get('lvl') == 'text':
+        return check_text(case)
     if case.get('lvl') == 'registry':
         return []
     return check_lib(case)
@@ -1038,6 +1209,8 @@ def shards(tier, seed):
     tc = tool_cases(tier, seed)
     for i, ch in enumerate(scope.stripe(tc, 32)):
         out.append(('t%03d' % i, 'run_cases', ch))
+    for i, c in enumerate(text_cases(tier)):
+        out.append(('x%03d' % i, 'run_cases', [c]))
     return out
 
 
@@ -1105,7 +1278,13 @@ def run_cases(chunk, R):
 
 def _run_one(case, R, state):
     st = {}
-    if case['lvl'] == 'tool':
+    if case['lvl'] == 'text':
+        vs = check_text(case, st)
+        name = 'text:' + case['cmd']
+        R.stats['printed_text_pairs'] += 1
+        R.stats['printed_rows'] += sum(st.get('rows', (0, 0)))
+        R.stats['components_compared'] += st.get('components', 0)
+    elif case['lvl'] == 'tool':
         if state['tmp'] is None:
             state['tmp'] = tempfile.mkdtemp(prefix='c08_')
         vs = check_tool(case, st, state['tmp'])
